@@ -5,6 +5,8 @@ import (
 	"strconv"
 	"sync"
 	"sync/atomic"
+
+	"github.com/form3tech-oss/f1/v2/internal/verifhook"
 )
 
 func newTriggerPool(m *PoolManager, numWorkers int) *TriggerPool {
@@ -34,6 +36,7 @@ func (p *TriggerPool) Trigger(ctx context.Context, numJobs int) {
 	if ctx.Err() != nil {
 		return
 	}
+	verifhook.Yield("pool.trigger.afterCtxCheck")
 	p.sendJobsForExecution(numJobs)
 }
 
@@ -71,11 +74,13 @@ func (p *TriggerPool) running() bool {
 
 func (p *TriggerPool) stop() {
 	p.stopWorkers.Store(true)
+	verifhook.Yield("pool.stop.beforeDrain")
 	p.sendJobsForExecution(0)
 }
 
 func (p *TriggerPool) maxIterationsReached() {
 	p.jobsToExecute.set(0)
+	verifhook.Yield("pool.limit.beforeCancel")
 	p.workerCtxCancel()
 }
 
@@ -87,6 +92,7 @@ func (p *TriggerPool) sendJobsForExecution(numJobs int) {
 
 	p.jobsAvailableCond.L.Unlock()
 
+	verifhook.Yield("pool.send.beforeRecordDrops")
 	for range jobsDiscarded {
 		p.manager.activeScenario.RecordDroppedIteration()
 	}
@@ -113,7 +119,9 @@ func (p *TriggerPool) run(
 			p.waitForNewJobs()
 		}
 
+		verifhook.Yield("pool.worker.beforeTake")
 		if p.jobsToExecute.take() {
+			verifhook.Yield("pool.worker.afterTake")
 			iteration, err := p.manager.NextIteration()
 			if err != nil {
 				p.maxIterationsReached()
